@@ -70,7 +70,21 @@ def histories(tier, rng):
         if with_delete:
             msgs.append(to_text(ro_delete(60, ro_id=rng.choice(['RO1', 'RO1', 'RO1-OLD', 'ro1', None]))))
         cs, ci = gens.state_ids(state)
-        msgs += one_of_each(cs, ci, rng, 100)
+        after = one_of_each(cs, ci, rng, 100)
+        if h % 3 == 0:
+            # "any message of any type": also ones without a usable message ID or roID (the refusal must not depend on them)
+            import re
+            for k in range(len(after)):
+                r = rng.random()
+                if r < 0.25:
+                    after[k] = re.sub(r'<messageID>[^<]*</messageID>', rng.choice(['', '<messageID />', '<messageID>A17</messageID>', '<messageID>7.0</messageID>']), after[k], count=1)
+                elif r < 0.4:
+                    after[k] = re.sub(r'<roID>[^<]*</roID>', rng.choice(['', '<roID />']), after[k], count=1)
+        msgs += after
+        if h % 4 == 1:
+            # ... and a running order without roID / roSlug of its own
+            import re
+            ro = re.sub(r'<roSlug>[^<]*</roSlug>', '', re.sub(r'<roID>[^<]*</roID>', rng.choice(['', '<roID />']), ro, count=1), count=1)
         yield {'ro': ro, 'msgs': msgs, 'n_prefix': n_prefix, 'with_delete': with_delete}
 
 
